@@ -59,9 +59,28 @@ def grammar_rules(ctx) -> Dict[str, Tuple[Any, ast.AST]]:
     return out
 
 
-def choice_lists(expr: ast.AST) -> List[ast.List]:
-    """arpeggio: a python list is an ordered choice (a tuple is a sequence)."""
-    return [n for n in ast.walk(expr) if isinstance(n, ast.List)]
+_CHOICE_CACHE: Dict[int, ast.List] = {}
+
+
+def choice_lists(expr: ast.AST, repo=None, mod=None) -> List[ast.List]:
+    """arpeggio: a python list is an ordered choice (a tuple is a sequence).  `list(CONST)` / a name bound to a
+    module-level list/tuple literal is resolved to the literal's elements (the synthesized list remembers the
+    expression it stands for in `_origin`)."""
+    out = []
+    for n in ast.walk(expr):
+        if isinstance(n, ast.List):
+            out.append(n)
+        elif repo is not None and isinstance(n, ast.Call) and isinstance(n.func, ast.Name) and n.func.id == "list" and \
+                len(n.args) == 1 and isinstance(n.args[0], ast.Name):
+            v = repo.module_assign(mod, n.args[0].id)
+            if isinstance(v, (ast.Tuple, ast.List)):
+                if id(n) not in _CHOICE_CACHE:
+                    syn = ast.List(elts=list(v.elts), ctx=ast.Load())
+                    ast.copy_location(syn, n)
+                    syn._origin = n  # type: ignore[attr-defined]
+                    _CHOICE_CACHE[id(n)] = syn
+                out.append(_CHOICE_CACHE[id(n)])
+    return out
 
 
 def str_elts(lst: ast.List) -> List[Tuple[int, str]]:
@@ -71,7 +90,7 @@ def str_elts(lst: ast.List) -> List[Tuple[int, str]]:
 def operator_choice(ctx, rules, rule_name: str) -> Tuple[Any, ast.List]:
     ctx.require(rule_name in rules, f"grammar rule {rule_name} is no longer reachable from the start rule")
     f, expr = rules[rule_name]
-    lists = [l for l in choice_lists(expr) if str_elts(l)]
+    lists = [l for l in choice_lists(expr, ctx.repo, f.module) if str_elts(l)]
     ctx.require(len(lists) == 1, f"grammar rule {rule_name}: expected exactly one literal choice list, found {len(lists)}")
     return f, lists[0]
 
@@ -81,7 +100,7 @@ def r1(ctx, rules):
                        "(the later alternative could never match)")
     n = 0
     for name, (f, expr) in sorted(rules.items()):
-        for lst in choice_lists(expr):
+        for lst in choice_lists(expr, ctx.repo, f.module):
             lits = str_elts(lst)
             for j, lit in lits:
                 shadow = [e for i, e in lits if i < j and lit.startswith(e) and e != lit]
@@ -345,7 +364,7 @@ def _repeats_flat(expr: ast.AST, rule_name: str, lst: ast.List) -> bool:
     one parse node then carries a whole chain `x (op x)*` with several operator tokens."""
     for n in ast.walk(expr):
         if isinstance(n, ast.Call) and call_attr(n) in ("ZeroOrMore", "OneOrMore") and \
-                any(x is lst for a in n.args for x in ast.walk(a)):
+                any(x is lst or x is getattr(lst, "_origin", None) for a in n.args for x in ast.walk(a)):
             recursive = any(isinstance(x, ast.Name) and x.id == rule_name for a in n.args for x in ast.walk(a))
             return not recursive
     return False
@@ -470,6 +489,14 @@ def _run(ev, stmts, env, depth=0):
                 out = _run(ev, st.orelse, env, depth)
                 if out.kind != "fallthrough":
                     return out
+        elif isinstance(st, ast.Expr) and isinstance(st.value, ast.Call) and isinstance(st.value.func, ast.Attribute) and \
+                isinstance(st.value.func.value, ast.Name) and isinstance(env.get(st.value.func.value.id), list) and \
+                st.value.func.attr in ("append", "extend", "insert") and not st.value.keywords:
+            tgt = env[st.value.func.value.id]
+            vals = [ev.ev(a, env) for a in st.value.args]
+            if any(isinstance(v, (Sym, CallVal)) for v in vals):
+                raise AnalysisError(f"interpreter: undecidable list operation `{src(st)}`")
+            getattr(tgt, st.value.func.attr)(*vals)
         elif isinstance(st, ast.Break):
             return Outcome("break")
         elif isinstance(st, ast.Continue):
@@ -577,11 +604,37 @@ class _FilterEval(ConstEval):
                     self.self_cls is not None:
                 m = self.repo.lookup_method(self.self_cls, f.attr)
                 if m is not None:
-                    return self._inline(m, n, local, skip_self=True)
+                    static = any((ap(d) or "").split(".")[-1] == "staticmethod" for d in m.node.decorator_list)
+                    return self._inline(m, n, local, skip_self=not static)
             if isinstance(f, ast.Name) and f.id not in local:
                 cands = [g for g in self.repo.funcs.get(f.id, []) if g.module is self.mod and g.cls is None and g.parent_fn is None]
                 if len(cands) == 1:
                     return self._inline(cands[0], n, local, skip_self=False)
+        if isinstance(n, ast.Attribute) and isinstance(n.value, ast.Name) and n.value.id == "self" and \
+                self.self_cls is not None and f"self.{n.attr}" not in self.children:
+            m = self.repo.lookup_method(self.self_cls, n.attr)
+            if m is not None and any((ap(d) or "").split(".")[-1] in ("property", "cached_property") for d in m.node.decorator_list):
+                fake = ast.Call(func=n, args=[], keywords=[])
+                ast.copy_location(fake, n)
+                return self._inline(m, fake, local, skip_self=True)
+        if isinstance(n, (ast.ListComp, ast.GeneratorExp)) and len(n.generators) == 1 and \
+                isinstance(n.generators[0].target, ast.Name):
+            g = n.generators[0]
+            seq = self.ev(g.iter, local)
+            if isinstance(seq, (tuple, list)):
+                out = []
+                for item in seq:
+                    env2 = dict(local)
+                    env2[g.target.id] = item
+                    keep = True
+                    for c in g.ifs:
+                        t = self.ev(c, env2)
+                        if isinstance(t, (Sym, CallVal)):
+                            return Sym(src(n))
+                        keep = keep and bool(t)
+                    if keep:
+                        out.append(self.ev(n.elt, env2))
+                return out
         if isinstance(n, ast.Name) and n.id in local:
             return local[n.id]
         return super()._ev(n, local)
@@ -1621,7 +1674,7 @@ def r6(ctx):
                    f"export uses {sorted(enc)}, import uses {sorted(dec)}")
 
     # Message.to_dict(extended=True) <-> Message.from_dict
-    mt = repo.fn("Message.to_dict", MSG)
+    mt = inline_self_calls(repo, repo.fn("Message.to_dict", MSG))
     mf = repo.fn("Message.from_dict", MSG)
     base_var = None
     wmap: Dict[str, Optional[str]] = {}
@@ -1645,12 +1698,28 @@ def r6(ctx):
     fparams = [a.arg for a in mf.node.args.args]
     ctx.require(len(fparams) == 2, "Message.from_dict signature changed")
     dv = fparams[1]
-    rmap: Dict[str, Optional[str]] = {k: None for k in _const_keys_read(mf.node, dv)}
-    for s in stores(mf.node):
-        if s.kind == "assign" and isinstance(s.target, ast.Attribute) and s.value is not None:
-            ks = list(_const_keys_read(s.value, dv))
-            if len(ks) == 1:
-                rmap[ks[0]] = s.target.attr
+    # from_dict plus the Message methods it hands the dict to (on self / cls / the message being built)
+    mcls = repo.cls("Message", MSG)
+    readers = [(mf, dv)]
+    for g, gp in list(readers):
+        for c in calls(g.node):
+            if isinstance(c.func, ast.Attribute) and not (ap(c.func) or "").startswith(("llsd.", "LOG.")):
+                m = repo.lookup_method(mcls, c.func.attr)
+                if m is None or any(m == x for x, _ in readers) or m.module is not mf.module:
+                    continue
+                ps = [a.arg for a in m.node.args.args][1:]
+                for i, a in enumerate(c.args):
+                    if isinstance(a, ast.Name) and a.id == gp and i < len(ps):
+                        readers.append((m, ps[i]))
+    rmap: Dict[str, Optional[str]] = {}
+    for g, gp in readers:
+        for k in _const_keys_read(g.node, gp):
+            rmap.setdefault(k, None)
+        for s in stores(g.node):
+            if s.kind == "assign" and isinstance(s.target, ast.Attribute) and s.value is not None:
+                ks = list(_const_keys_read(s.value, gp))
+                if len(ks) == 1:
+                    rmap[ks[0]] = s.target.attr
     ctx.floor("C18.R6", "keys of Message.to_dict(extended=True)", len(wmap), 6)
     for k in sorted(set(wmap) | set(rmap)):
         ctx.ob("C18.R6", f"Message: key {k!r} written by to_dict and read by from_dict", k in wmap and k in rmap,
@@ -1691,9 +1760,15 @@ def r6(ctx):
     r_loops = [l for l in walk(mf.node) if isinstance(l, ast.For) and isinstance(l.target, ast.Tuple) and len(l.target.elts) == 2 and
                all(isinstance(t, ast.Name) for t in l.target.elts) and isinstance(l.iter, ast.Call) and call_attr(l.iter) == "items" and
                "body" in list(_const_keys_read(l.iter, dv))]
-    ctx.require(len(w_loops) == 1 and len(r_loops) == 1,
-                f"Message.to_dict/from_dict: block loops not found (writer {len(w_loops)}, reader {len(r_loops)})")
-    w_emits = per_key_effect(mt, w_loops[0], _key_target(w_loops[0].target), None)
+    # the writer may also be a dict comprehension over self.blocks (one entry per block name, empty lists included)
+    w_comps = [n for n in walk(mt.node) if isinstance(n, ast.DictComp) and len(n.generators) == 1 and
+               (ap(n.generators[0].iter) or "").replace(".keys()", "").replace(".items()", "") == "self.blocks"]
+    ctx.require(len(w_loops) + len(w_comps) == 1 and len(r_loops) == 1,
+                f"Message.to_dict/from_dict: block loops not found (writer {len(w_loops) + len(w_comps)}, reader {len(r_loops)})")
+    if w_loops:
+        w_emits = per_key_effect(mt, w_loops[0], _key_target(w_loops[0].target), None)
+    else:
+        w_emits = not w_comps[0].generators[0].ifs
     r_key, r_list = r_loops[0].target.elts[0].id, r_loops[0].target.elts[1].id
     r_creates = per_key_effect(mf, r_loops[0], r_key, r_list)
     ctx.ob("C18.R6", "Message.from_dict recreates every block list to_dict emits, also an empty one",
